@@ -1,17 +1,25 @@
 #!/bin/sh
 # Like all_seeds.sh but never touches /repo: every seed is applied to its own scratch copy of the
 # sources under /verif/.scratch (removed afterwards) and the checks run with ZVBI_REPO pointing at it.
-# Runs 8 seeds in parallel.  usage: tools/all_seeds_scratch.sh > seeded/MATRIX.txt
-cd /verif
-ls seeded | grep "^C[0-9][0-9]_" | xargs -P8 -I{} sh -c '
+# The engine itself runs from a snapshot, so /verif can be edited meanwhile.
+# Runs 8 seeds in parallel.  usage: tools/all_seeds_scratch.sh [seed-id-regex] > seeded/MATRIX.txt
+pat="${1:-^C[0-9][0-9]_}"
+snap=/verif/.scratch/snapS.$$
+rm -rf "$snap"; mkdir -p "$snap/tools"
+rsync -a --exclude='__pycache__' /verif/check /verif/zsa /verif/selftest /verif/known_findings.json /verif/properties.jsonl "$snap/"
+cp /verif/tools/zvbi-facts "$snap/tools/"
+cd "$snap"
+ls /verif/seeded | grep "^C[0-9][0-9]_" | grep -E "$pat" | xargs -P8 -I{} sh -c '
 id="{}"; prop=${id%_*}
 s=/verif/.scratch/m.$id.$$
 rm -rf "$s"; mkdir -p "$s"
 for d in src daemon; do rsync -a --exclude="*.o" --exclude="*.lo" --exclude="*.la" --exclude=".libs" --exclude=".deps" /repo/$d "$s/"; done
 cp /repo/config.h /repo/config.status /repo/site_def.h "$s/" 2>/dev/null
 if ! patch -p1 -s -f -d "$s" -i "/verif/seeded/$id/patch.diff" >/dev/null 2>&1; then echo "$id: patch does not apply"; rm -rf "$s"; exit 0; fi
-ZVBI_REPO="$s" ZSA_EVIDENCE_DIR="$s/_ev" ./check "$prop" > "$s/out" 2>&1; r=$?
+ZVBI_REPO="$s" ZSA_CACHE="$s/_cache" ZSA_EVIDENCE_DIR="$s/_ev" ./check "$prop" > "$s/out" 2>&1; r=$?
 k=$(grep -a -A1 "^VIOLATION" "$s/out" | grep -av "^VIOLATION\|^--" | head -1 | sed "s/^ *//" | cut -c1-90)
+[ "$r" = "2" ] && k=$(grep -a "ANALYSIS-BROKEN" "$s/out" | head -1 | cut -c1-120)
 echo "$id: $prop=exit$r [$k]"
 rm -rf "$s"
 ' | sort
+rm -rf "$snap"
